@@ -6,6 +6,7 @@ import (
 	"go/token"
 	"go/types"
 	"math"
+	"math/big"
 	"path/filepath"
 	"reflect"
 	"strings"
@@ -817,7 +818,7 @@ func (in *Interp) binop(op token.Token, a, b Value, t types.Type, ins ssa.Instru
 	case float64:
 		switch y := b.(type) {
 		case float64:
-			return floatOp(op, x, y)
+			return in.concreteFloatOp(op, x, y)
 		case *smt.Term:
 			return in.symFloatOp(op, a, b, ins)
 		}
@@ -892,10 +893,49 @@ func unwrapBool(t *smt.Term) Value {
 }
 
 func unwrapNum(t *smt.Term) Value {
-	if t.Op == smt.OConstN {
+	if t.Op == smt.OConstN && t.R == nil {
 		return t.F
 	}
 	return t
+}
+
+// concreteFloatOp: in REAL mode arithmetic on two concrete floats is carried out exactly over the
+// rationals (the result becomes an exact constant term when it is not a float64), so that the same
+// expression means the same number whether its operands happen to be concrete or symbolic on a path.
+func (in *Interp) concreteFloatOp(op token.Token, x, y float64) Value {
+	if in.C == nil || in.C.Mode != smt.REAL || in.conc != nil || nonFinite(x) || nonFinite(y) {
+		return floatOp(op, x, y)
+	}
+	switch op {
+	case token.ADD, token.SUB, token.MUL, token.QUO:
+	default:
+		return floatOp(op, x, y)
+	}
+	if op == token.QUO && y == 0 {
+		return floatOp(op, x, y)
+	}
+	native := floatOp(op, x, y).(float64)
+	if nonFinite(native) {
+		return native
+	}
+	rx, ry := new(big.Rat), new(big.Rat)
+	rx.SetFloat64(x)
+	ry.SetFloat64(y)
+	r := new(big.Rat)
+	switch op {
+	case token.ADD:
+		r.Add(rx, ry)
+	case token.SUB:
+		r.Sub(rx, ry)
+	case token.MUL:
+		r.Mul(rx, ry)
+	case token.QUO:
+		r.Quo(rx, ry)
+	}
+	if f, exact := r.Float64(); exact {
+		return f
+	}
+	return in.C.Rat(r)
 }
 
 func floatOp(op token.Token, x, y float64) Value {
